@@ -917,7 +917,15 @@ def _silent_payments(ctx: Ctx) -> None:
             pubs = [(Q, spk) for Q, spk in pubs if Q is not None]
             labels = sp.label_lookup(r.b_scan, sorted({0, *r.labels})) if r.labels or ch.draw(2, "change-label") else None
             full = sp.scan_transaction_outputs(r.b_scan, mult(r.b_spend), outpoints, pubs, outputs, labels)
-            tweak = sp.tweak_data(outpoints, sp.pub_key_sum([Q for Q, _ in pubs]))
+            a_sum: Any = sp.pub_key_sum([Q for Q, _ in pubs])
+            # what a server hands a light client is one public key, in whatever spelling of it: a PubKey is a point,
+            # its compressed or uncompressed SEC octets, or their hex
+            spelling = ch.pick(["point", "sec33", "sec65", "hex33", "hex65"], "sp.a-sum.spelling")
+            if spelling != "point":
+                octets = (bytes([2 + a_sum[1] % 2]) + a_sum[0].to_bytes(32, "big")) if spelling.endswith("33") else b"\x04" + a_sum[0].to_bytes(32, "big") + a_sum[1].to_bytes(32, "big")
+                a_sum = octets.hex() if spelling.startswith("hex") else octets
+            tweak = sp.tweak_data(outpoints, a_sum)
+            ctx.probe(f"a-sum-spelling:{spelling}")
             light = sp.scan_outputs(r.b_scan, mult(r.b_spend), tweak, outputs, labels)
         site = f"bindings={st.backend()}"
         r.found = [o.pub_key for o in full]
